@@ -79,10 +79,16 @@ func init() {
 			tsF := r.P.Field("workers/operator", "Timer", "Timestamp")
 			keyF := r.P.Field("workers/operator", "Timer", "Key")
 			var timerVar types.Object
+			hasName := ""
 			inspect(lit.Body, func(nd ast.Node) bool {
 				if as, ok := nd.(*ast.AssignStmt); ok && len(as.Rhs) == 1 {
 					if call, ok := ast.Unparen(as.Rhs[0]).(*ast.CallExpr); ok && r.P.CalleeFunc(info, call) == getE {
 						timerVar = prog.IdentObj(info, as.Lhs[0])
+						if len(as.Lhs) == 2 {
+							if id, ok := as.Lhs[1].(*ast.Ident); ok {
+								hasName = id.Name
+							}
+						}
 					}
 				}
 				return true
@@ -116,8 +122,19 @@ func init() {
 				}
 				return true
 			})
-			r.orderDomExpr(info, stop.Cond, f.Name()+":stop-condition", map[string]string{tn + ".Timestamp": "timer", wmName: "watermark"}, nil,
-				func(e odEnv) orderdom.Value { return orderdom.Bool(e.Rank["timer"] > e.Rank["watermark"]) }, "timer.Timestamp > composite watermark (stop)")
+			// the "no timer left" test may be folded into the same condition (`!ok || timer after watermark`)
+			odNames := map[string]string{tn + ".Timestamp": "timer", wmName: "watermark"}
+			if hasName != "" {
+				odNames[hasName] = "has"
+			}
+			r.orderDomExpr(info, stop.Cond, f.Name()+":stop-condition", odNames, nil,
+				func(e odEnv) orderdom.Value {
+					has, mentioned := e.Bool["has"]
+					if !mentioned {
+						has = true
+					}
+					return orderdom.Bool(!has || e.Rank["timer"] > e.Rank["watermark"])
+				}, "no timer left, or timer.Timestamp > composite watermark (stop)")
 			stops := false
 			for _, st := range stop.Body.List {
 				if b, ok := st.(*ast.BranchStmt); ok && b.Tok == token.BREAK {
